@@ -1,8 +1,8 @@
 (* C10 — canonicalisation and gauge moves never change the represented state.
    Amplitude statements hold over ANY commutative ring with an involution (in particular the complex numbers), for MPS of any
    length, any bond dimensions and any (mixed) physical dimensions, and for ANY factorisation Q.R of the site tensor (QR or SVD).
-   PARTIAL: that LAPACK's QR/SVD return such a factorisation (and, in SVD mode, cut at most 1e-12 of weight) is an oracle;
-   flip_network and zero padding are tied numerically only. *)
+   flip_network (sites reversed, bonds exchanged) represents the same amplitudes read backwards; padding a bond with zeros changes none.
+   PARTIAL: that LAPACK's QR/SVD return such a factorisation (and, in SVD mode, cut at most 1e-12 of weight) is an oracle. *)
 From Coq Require Import List Arith Ring.
 Import ListNotations.
 From Yaqs Require Import LinAlg.TT Model.Gauge Proofs.GaugeP.
@@ -22,6 +22,21 @@ Theorem C10_shift_left_preserves : forall (K : Type) (k0 k1 : K) (kadd kmul ksub
   amp K k0 k1 kadd kmul (pre ++ absorb_r K k0 kadd kmul R m s1 :: q :: post) sigma = amp K k0 k1 kadd kmul (pre ++ s1 :: s2 :: post) sigma.
 Proof. exact gauge_move_left_preserves. Qed.
 Print Assumptions C10_shift_left_preserves.
+
+Theorem C10_flip_preserves_amplitudes : forall (K : Type) (k0 k1 : K) (kadd kmul ksub : K -> K -> K) (kopp : K -> K),
+  ring_theory k0 k1 kadd kmul ksub kopp (@eq K) ->
+  forall ss sigma, lchain K 1 ss 1 -> length sigma = length ss ->
+  amp K k0 k1 kadd kmul (TT.flip K ss) (rev sigma) = amp K k0 k1 kadd kmul ss sigma.
+Proof. exact flip_preserves_amplitudes. Qed.
+Print Assumptions C10_flip_preserves_amplitudes.
+
+Theorem C10_zero_padding_preserves : forall (K : Type) (k0 k1 : K) (kadd kmul ksub : K -> K -> K) (kopp : K -> K),
+  ring_theory k0 k1 kadd kmul ksub kopp (@eq K) ->
+  forall v s1 s2 extra p1 p2 r, chiR K s1 = chiL K s2 ->
+  step K k0 kadd kmul (step K k0 kadd kmul v (pad_right K k0 extra s1) p1) (pad_left K k0 extra s2) p2 r =
+  step K k0 kadd kmul (step K k0 kadd kmul v s1 p1) s2 p2 r.
+Proof. exact pad_bond_preserves. Qed.
+Print Assumptions C10_zero_padding_preserves.
 
 (* normalisation only rescales: multiplying one site tensor by c multiplies every amplitude by c *)
 Theorem C10_normalize_only_rescales : forall (K : Type) (k0 k1 : K) (kadd kmul ksub : K -> K -> K) (kopp : K -> K),
